@@ -567,3 +567,23 @@ pub(crate) trait MetaVisitor<'ast> {
 
     fn visit_meta_item_lit(&mut self, _lit: &'ast ast::MetaItemLit) {}
 }
+
+#[cfg(feature = "verif-hooks")]
+pub(crate) mod verif_local {
+    use super::*;
+
+    /// The length of the run of derives `take_while_with_pred` finds at the head of `attrs`.
+    pub(crate) fn derive_run_len(context: &RewriteContext<'_>, attrs: &[ast::Attribute]) -> usize {
+        take_while_with_pred(context, attrs, is_derive).len()
+    }
+
+    /// `DocCommentFormatter` on a literal's value.
+    pub(crate) fn doc_comment_text(literal: &str, inner: bool) -> String {
+        let style = if inner {
+            CommentStyle::Doc
+        } else {
+            CommentStyle::TripleSlash
+        };
+        format!("{}", DocCommentFormatter::new(literal, style))
+    }
+}
